@@ -236,4 +236,16 @@ where
     | [] => []
     | a :: rest => flatten a ++ go rest
 
+/-- a table-driven expander (used by the driver and the examples): a leaf `expr id` that has an entry in the table is a macro
+    call and is replaced by its expansion; everything else is rebuilt unchanged -/
+def substExpand (tbl : List (Nat × Ast)) : Ast → Ast
+  | .node (.expr id) => match tbl.lookup id with | some a => a | none => .node (.expr id)
+  | .node n => .node n
+  | .bad => .bad
+  | .slice l => .slice (go l)
+where
+  go : List Ast → List Ast
+    | [] => []
+    | a :: rest => substExpand tbl a :: go rest
+
 end Collect
